@@ -113,6 +113,12 @@ def gen_cases(rng, tier, count=None):
         c = gen.algo_case(rng, cheap[i % len(cheap)], tier, n=n, T=n, fams=fams, dim=int(rng.integers(1, 3)))
         c["_cost"] = 20.0
         cases.append(c)
+    for i in range(30 if tier == "quick" else 600):
+        # POO close to rhomax = 1 keeps doubling its number of learners: small budgets meet large N there
+        a = ["POO_T_HOO", "POO_HCT", "POO_VHCT"][i % 3]
+        c = gen.algo_case(rng, a, tier, n=int(rng.integers(100, 600)), fams=fams, dim=int(rng.integers(1, 3)))
+        c["params"]["rhomax"] = float(rng.uniform(0.98, 0.999))
+        cases.append(c)
     light = ("SOO", "DOO", "DOO_delta", "StoSOO", "SequOOL", "StroquOOL", "Zooming")
     for c in cases:
         if (c["n"] <= 333 or (c["algo"] in light and c["n"] <= 1300)) and rng.random() < 0.5:
